@@ -393,6 +393,11 @@ func (p *Program) RunHarness(name string, cfg HarnessConfig, kind SolverKind, ve
 				if cfg.StopAtFirst && len(i.rep.violations) > 0 {
 					stop = true
 				}
+				if i.solver.dead {
+					// nothing decided after this point can be trusted: end the exploration as inconclusive
+					rep.Inconclusive = appendUnique(rep.Inconclusive, "solver process lost: "+i.solver.lastErr)
+					stop = true
+				}
 				mu.Unlock()
 				if stop {
 					ex.mu.Lock()
